@@ -66,68 +66,93 @@ func runKindExh(p *Program, r *RuleResult) {
 	kind := p.Named(parserPkg, "Kind")
 	consts := p.EnumConsts(kind)
 	fn := p.expandFunc()
-	view := p.View(fn)
 	name := fnName(fn)
 	r.count("statement kinds", len(consts))
-	for _, c := range consts {
-		cv, _ := constantInt(c)
-		handled := false
-		why := "no comparison of a statement's kind with this constant"
-		for _, b := range view.Blocks() {
-			ins := view.Instrs(b)
-			iff, ok := ins[len(ins)-1].(*ssa.If)
-			if !ok {
-				continue
-			}
-			bo, ok := iff.Cond.(*ssa.BinOp)
-			if !ok || bo.Op != token.EQL {
-				continue
-			}
-			k, ok := bo.Y.(*ssa.Const)
-			if !ok || !types.Identical(k.Type(), kind) || k.Int64() != cv {
-				continue
-			}
-			why = "compared, but the branch does not append to a returned collection"
-			// true region: blocks reachable from Succs[0] where the fact holds
-			for _, rb := range view.Blocks() {
-				if !view.holdsAt(rb, bo, factTrue) {
-					continue
-				}
-				for _, in := range view.Instrs(rb) {
-					if call, ok := in.(*ssa.Call); ok {
-						if bi, ok := call.Common().Value.(*ssa.Builtin); ok && bi.Name() == "append" {
-							handled = true
+	// the expansion function and the helpers it hands the statement list to (a pass over
+	// the statements moved into a function of its own)
+	scan := []*ssa.Function{fn}
+	for _, c := range p.callsIn(fn) {
+		h := c.Common().StaticCallee()
+		if h == nil || h.Blocks == nil || h.Pkg != fn.Pkg || h == fn {
+			continue
+		}
+		takes := false
+		for _, a := range c.Common().Args {
+			if sl, ok := a.Type().Underlying().(*types.Slice); ok {
+				if st, ok := sl.Elem().Underlying().(*types.Struct); ok {
+					for i := 0; i < st.NumFields(); i++ {
+						if types.Identical(st.Field(i).Type(), kind) {
+							takes = true
 						}
 					}
 				}
 			}
 		}
-		// every statement of the kind: from the entry of the arm no way leads on to the next
-		// statement (the loop header) without an append
+		if takes {
+			scan = append(scan, h)
+		}
+	}
+	isAppend := func(in ssa.Instruction) bool {
+		call, ok := in.(*ssa.Call)
+		if !ok {
+			return false
+		}
+		bi, ok := call.Common().Value.(*ssa.Builtin)
+		return ok && bi.Name() == "append"
+	}
+	// kindTest: the branch compares a statement's kind with cv; returns the fact that holds
+	// in the arm of that kind and the index of the successor entering it
+	kindTest := func(iff *ssa.If, cv int64) (*ssa.BinOp, factKind, int, bool) {
+		bo, ok := iff.Cond.(*ssa.BinOp)
+		if !ok || (bo.Op != token.EQL && bo.Op != token.NEQ) {
+			return nil, 0, 0, false
+		}
+		k, ok := bo.Y.(*ssa.Const)
+		if !ok || !types.Identical(k.Type(), kind) || k.Int64() != cv {
+			return nil, 0, 0, false
+		}
+		if bo.Op == token.EQL {
+			return bo, factTrue, 0, true
+		}
+		return bo, factFalse, 1, true
+	}
+	for _, c := range consts {
+		cv, _ := constantInt(c)
+		handled := false
+		why := "no comparison of a statement's kind with this constant"
 		skip := ""
-		if handled {
-			isAppend := func(in ssa.Instruction) bool {
-				call, ok := in.(*ssa.Call)
-				if !ok {
-					return false
-				}
-				bi, ok := call.Common().Value.(*ssa.Builtin)
-				return ok && bi.Name() == "append"
-			}
+		for _, sf := range scan {
+			view := p.View(sf)
 			for _, b := range view.Blocks() {
 				ins := view.Instrs(b)
 				iff, ok := ins[len(ins)-1].(*ssa.If)
 				if !ok {
 					continue
 				}
-				bo, ok := iff.Cond.(*ssa.BinOp)
-				if !ok || bo.Op != token.EQL {
+				bo, fk, armIdx, ok := kindTest(iff, cv)
+				if !ok {
 					continue
 				}
-				k, ok := bo.Y.(*ssa.Const)
-				if !ok || !types.Identical(k.Type(), kind) || k.Int64() != cv {
+				if !handled {
+					why = "compared, but the branch does not append to a returned collection"
+				}
+				armHandled := false
+				for _, rb := range view.Blocks() {
+					if !view.holdsAt(rb, bo, fk) {
+						continue
+					}
+					for _, in := range view.Instrs(rb) {
+						if isAppend(in) {
+							armHandled = true
+						}
+					}
+				}
+				if !armHandled {
 					continue
 				}
+				handled = true
+				// every statement of the kind: from the entry of the arm no way leads on to
+				// the next statement (the loop header) without an append
 				var loop *Loop
 				for _, l := range view.Loops() {
 					if l.Body[b] && (loop == nil || len(l.Body) < len(loop.Body)) {
@@ -163,7 +188,7 @@ func runKindExh(p *Program, r *RuleResult) {
 						}
 					}
 				}
-				walk(view.Succs(b)[0])
+				walk(view.Succs(b)[armIdx])
 			}
 		}
 		if handled && skip != "" {
@@ -436,7 +461,7 @@ func runParseErr(p *Program, r *RuleResult) {
 // R-COLLECT-THEN-RESOLVE (C14): declarations are collected completely before any of them
 // is looked up, so that the order in which they are written does not matter.
 func init() {
-	register(&Rule{Name: "R-COLLECT-THEN-RESOLVE", Min: 5,
+	register(&Rule{Name: "R-COLLECT-THEN-RESOLVE", Min: 3,
 		Doc: "in the function that turns parsed statements into declarations: a collection that is still being appended to in a loop over the statements is not handed to a lookup (any first-party call other than append) inside that same loop; resolving a name against the declarations collected so far makes the result depend on the textual order of declarations",
 		Run: runCollectThenResolve})
 }
